@@ -4,6 +4,8 @@ package reputation
 
 // Machine-checked contracts (govc, see /verif/DESIGN.md). Comment-only file.
 
+//@ ghost pred isAlpha() bool
+
 // ---- C35: see pkg/innerring/processors/container/verif_contracts.go
 //@ func (*Processor).approvePutReputation
 //@   property C35
